@@ -396,7 +396,8 @@ class SchemaBuilder(
                 else res["type"]
                 for res in results
             )
-            return json_schema(type=list(types))
+            # a type name given by several alternatives appears once
+            return json_schema(type=list(dict.fromkeys(types)))
         elif (
             len(results) == 2
             and all("type" in res for res in results)
